@@ -136,11 +136,15 @@ def build_request(spec, key, n):
                 bi %= len(b)
                 b[bi] ^= 1 << bit
                 wire[fi] = bytes(b)
+        elif kind in ("sigcut", "sigext") and DELIM in wire:  # signature frame shortened / extended
+            si = wire.index(DELIM) + 1
+            if si < len(wire):
+                wire[si] = wire[si][: mut[1]] if kind == "sigcut" else wire[si] + bytes(mut[1])
         elif kind == "drop":  # ["drop", frame_index]
             if mut[1] < len(wire):
                 del wire[mut[1]]
         elif kind == "trunc":  # ["trunc", n_frames_kept]
-            wire = wire[: mut[1]]
+            wire = wire[: max(1, mut[1])]
     json_ok = True
     if DELIM in wire:
         fr = wire[wire.index(DELIM) + 2 :]
